@@ -1,6 +1,7 @@
 """Action to support jsonschemas."""
 
 import os
+from copy import deepcopy
 from typing import Dict, Optional, Union
 
 from ._actions import _is_action_value_list
@@ -81,9 +82,13 @@ class ActionJsonSchema(Action):
         islist = _is_action_value_list(self)
         if not islist:
             value = [value]
+        elif isinstance(value, list):
+            value = list(value)  # do not modify the given list
         for num, val in enumerate(value):
             try:
                 val, fpath = parse_value_or_config(val, enable_path=self._enable_path)
+                if isinstance(val, (dict, list)):
+                    val = deepcopy(val)  # the validator fills in defaults, which must not modify the given object
                 path_meta = val.pop("__path__") if isinstance(val, dict) and "__path__" in val else None
                 self._validator.validate(val)
                 if path_meta is not None:
